@@ -206,5 +206,36 @@ PROPS["C13"] = {
     "assumptions": ["intrinsics with declared written scalars are executed as writes of those scalars; undeclared ones as no-ops", "an execution ends at an indirect branch"],
 }
 
+PROPS["C10"] = {
+    "quick_secs": 12,
+    "thorough_secs": 180,
+    "min_evaluations": 100000,
+    "technique": "structural monitors (skeleton preserved, single assignment, brute-force dominance of definitions over uses, phi inputs = predecessors) + lock-step differential execution of the function and its SSA form in the reference interpreter (SSA mode)",
+    "rule": "random IL functions (<=8 blocks; loops through the entry, self-loops, one in five with unreachable blocks, scalars assigned on two "
+            "branches and read only by a later edge guard, scalars read before assignment, mixed widths, intrinsics) -> ssa_transformation. "
+            "Checked: Ok; stripping versions and phi nodes gives back the input; every version written once; every versioned use (operand, guard, "
+            "phi input) has a definition that dominates it (dominators by the path definition); every phi has exactly one input per predecessor "
+            "and an entry input only in the entry block; 6 lock-step executions (<=200 steps): same path, same events, same value written by every "
+            "instruction. Distinct = (block count, phi count, entry-in-loop, unreachable, guard-only scalar).",
+    "level_text": "Sampled functions; the structural checks are complete per function and the differential execution samples states.",
+    "level_note": "trusts harness/src/graphref.rs for dominance and harness/src/refinterp.rs (phi selection by incoming edge); blocks unreachable from the entry are exempt from the versioning checks",
+    "assumptions": ["writes in blocks unreachable from the entry are not required to be versioned (no path from the entry reaches them)"],
+}
+
+PROPS["C17"] = {
+    "quick_secs": 12,
+    "thorough_secs": 180,
+    "min_evaluations": 100000,
+    "technique": "execution monitor: reference-interpreter runs check sp_now == sp_entry + reported offset (mod 2^w) after every executed location, for all seven architecture descriptors",
+    "rule": "for each of the 7 architectures (its stack_pointer() scalar, 32 or 64 bits): random IL functions whose entry block has no incoming edge, "
+            "mixing sp +- constants, constant + sp, sp = other register, sp loaded from memory, sp saved elsewhere, sp & -16, sp = constant, sp + sp, "
+            "balanced/unbalanced diamonds and loops; stack_pointer_offsets must return Ok; 6 executions (<=150 steps) each: after every executed "
+            "location with Value(k), sp equals its entry value plus k reduced to the pointer width. Distinct = (architecture, block count, numeric "
+            "offsets met, unknown offsets met).",
+    "level_text": "Sampled functions and executions per architecture; all seven descriptors are exercised on every run (the first seven cases are one per architecture).",
+    "level_note": "trusts harness/src/refinterp.rs; Top/Bottom reports are never wrong by the statement",
+    "assumptions": ["machine-code functions lifted by the translators are covered by C06's generator, not here"],
+}
+
 # properties not claimed, with the reason (everything else not in PROPS is 'not built yet')
 NOT_CLAIMED = {}
